@@ -248,4 +248,6 @@ def check(ctx, R):
     R.run("C08.c", wire_rules.c08_c, ctx)
     R.run("C08.d", rule_d, ctx)
     R.run("C08.e", rule_e, ctx)
+    from . import c06
+    R.run("C08.f", lambda R, c: c06.rule_g(R, c, "C08.f", only=("yrs::update::Update::encode_diff",)), ctx)
     return {}
